@@ -323,6 +323,18 @@ class _Intercept:
     def spec_fail(self, sig, case, detail):
         self.held.append((sig, case, detail))
 
+    def lean(self, lines):
+        """The driver shards contiguous chunks; the expensive lines (large graphs) are contiguous in the case
+        stream, so the lines are dealt round-robin over the shards and the answers put back in order."""
+        lines = list(lines)
+        k = 12
+        order = [i for c in range(k) for i in range(c, len(lines), k)]
+        ans = self._ctx.lean([lines[i] for i in order])
+        out = [None] * len(lines)
+        for pos, i in enumerate(order):
+            out[i] = ans[pos]
+        return out
+
 
 def evaluate(ctx, cases, shrink=True):
     if not shrink or isinstance(ctx, Sub):
